@@ -177,7 +177,7 @@ fn prelude(t: &mut Tracer) {
 }
 
 /// ... and U+2212 MINUS SIGN (a multi-byte character) in every position where a sign can stand, through all thirteen parsers
-const MINUS_PROBES: [&str; 12] = ["\u{2212}PT1H", "\u{2212}P1D", "\u{2212}P", "P\u{2212}1D", "PT\u{2212}1H", "\u{2212}002020-01-01", "\u{2212}002020-01-01T00:00Z", "2020-01-01T00:00\u{2212}05:00",
+const MINUS_PROBES: [&str; 13] = ["--01-32[UTC]", "\u{2212}PT1H", "\u{2212}P1D", "\u{2212}P", "P\u{2212}1D", "PT\u{2212}1H", "\u{2212}002020-01-01", "\u{2212}002020-01-01T00:00Z", "2020-01-01T00:00\u{2212}05:00",
     "2020-01-01T00:00\u{2212}05:00[\u{2212}05:00]", "T12:30\u{2212}05:00", "\u{2212}05:00", "\u{2212}05"];
 const ALL_PARSERS: [&str; 13] = ["PlainDate", "PlainDateTime", "PlainTime", "PlainYearMonth", "PlainMonthDay", "Instant", "ZonedDateTime", "Duration", "UtcOffset", "TimeZoneId", "TimeZone", "MonthCode", "Calendar"];
 fn prelude_signs(t: &mut Tracer) {
